@@ -348,7 +348,19 @@ func monitorTA(sc TScenario, o tOutcome) (vs []viol) {
 			}
 		}
 	}
-	up := false // the source became ready (some reader got a bundle) or Run ended
+	// the source must be up at the end: Run was called, was not stopped, and the file last written
+	// is a good bundle (every file write is followed by a settle period)
+	lastFile, stopped := -1, false
+	for _, op := range sc.Ops {
+		switch op.Op {
+		case "file":
+			lastFile = op.V
+		case "stop":
+			stopped = true
+		}
+	}
+	up := runCalled && !stopped && lastFile > 0
+	// … or it is seen to be up (some reader got a bundle), or Run ended
 	for _, r := range o.Rets {
 		if strings.HasPrefix(r, "b") {
 			up = true
